@@ -19,13 +19,15 @@ the order) only.  A *cell* is a flat tuple whose first entry names the table:
           every sub-range), ``compute_plaquette_environments`` (block sizes,
           both first_contract): every stored key, combined with the sites it
           excludes, contracts to the value of the whole
-  rg2d    ``coarse_grain_hotrg``, ``contract_hotrg``, ``contract_ctmrg``
+  rg      ``coarse_grain_hotrg``, ``contract_hotrg``, ``contract_ctmrg``,
+          ``contract_mps_sweep`` (2D and 3D)
   b3d / from3d / rg3d / sw3d / cell3d   the 3D analogues (six directions,
           modes, sequences, HOTRG / CTMRG, peps / simple sweeps, cell envs)
   cc      ``contract_compressed`` on every connected graph with <= 5 tensors
           along EVERY contraction path x option deviations; the public
           ``callback_post_compress`` sees every compressed bond <= chi
   ar      ``contract_around`` (every site), ``contract_around_center/corner``
+  cb      ``compress_between`` on every edge x absorb / canonize distance / mode
   call    ``compress_all``, ``compress_all_tree`` (trees), ``compress_all_1d``
           (chains), ``compress_all_simple``
   tnag    every method of ``tnag/compress.py`` on 1-3 layer networks
@@ -48,10 +50,13 @@ Conventions established on the real code (not defects):
   * ``canonize_distance=-1`` and ``compress_mode='local-fit'`` below the exact
     bond are not enumerated (undocumented special value / iterative ALS fit);
   * environments only accumulate NEW exponent (documented): the oracle adds the
-    exponent of the original network once.
+    exponent of the original network once;
+  * on a lattice that is periodic ALONG the boundary line, 'mps' / 'full-bond'
+    leave the wrap-around bond of the line uncompressed (it can exceed the
+    cap); the cap is asserted on the bonds between lattice neighbours only.
 
 Root-cause signatures: ``entry`` (method), ``check`` (value / cap / open /
-keys / type / crash / touched), ``exc`` for crashes, ``mode`` and - computed
+keys / structure / type / crash / touched), ``exc`` for crashes, ``mode`` and - computed
 from the CASE, never from the failure - ``root`` when the cell contains the
 trigger of a known finding (see known_findings.d/C12.json).
 """
@@ -69,20 +74,28 @@ from ..alphabet import fill
 
 RTOL = 1e-8  # QR / SVD based schemes (DESIGN)
 RTOL_GRAM = 1e-7  # schemes going through Gram matrices / eigh (projectors, dm, full-bond, bp)
+RTOL_CLOSED = 1e-5  # the same on a closed boundary (rank deficient Gram matrices)
 BIG = 1 << 14  # arbitrary geometry: a cap above every bond that can occur
 CAP3D = 64  # >= 2**(L-1) for every 3D lattice used (L <= 4)
 CAPRG = 1024
 
 
-def cap2d(kind, Lx, Ly, cyc):
+def layer_bond(kind):
+    """size of one original lattice bond (never compressed when two opposite
+    boundaries meet: such a bond may legitimately exceed a smaller cap)"""
+    return {"flat": 2, "flatexp": 2, "flat3": 3, "norm": 4}[kind.partition(":")[0]]
+
+
+def cap2d(kind, Lx, Ly, cyc, lines=None):
     """a cap that is at least the exact bond size of any boundary of this
-    lattice: (layer bond)**(lines absorbed), squared when a periodic bond is
-    routed through the open boundary MPS.  Kept tight because the 'fit'
-    compressors allocate their guess at the full cap."""
-    base = kind.partition(":")[0]
-    d = {"flat": 2, "flatexp": 2, "flat3": 3, "norm": 4}[base]
-    c = d ** max(max(Lx, Ly) - 1, 1)
+    lattice that has absorbed ``lines`` lines (default: all of them):
+    (layer bond)**lines, squared when a periodic bond is routed through the
+    open boundary MPS.  Kept tight because the 'fit' compressors allocate
+    their guess at the full cap."""
+    d = layer_bond(kind)
+    c = d ** max(lines if lines is not None else max(Lx, Ly), 1)
     return int(c * c if cyc else c)
+
 
 _Q = {}
 
@@ -121,26 +134,72 @@ def _registries():
 
 def ref_contract(ts, out=()):
     """ts: list of (ndarray, labels).  Sum every label not in ``out``; result
-    axes ordered as ``out``.  Pairwise ``np.einsum``; the next operand is the
-    one sharing most labels with the accumulated tensor."""
+    axes ordered as ``out``.  Pairwise ``np.einsum``, greedily contracting the
+    connected pair that frees most memory (then disconnected pieces)."""
     ts = [(np.asarray(a), tuple(l)) for a, l in ts]
     out = tuple(out)
     if not ts:
         return np.asarray(1.0)
-    acc, al = ts[0]
-    rest = list(ts[1:])
-    while rest:
-        sal = set(al)
-        best = max(range(len(rest)), key=lambda i: (len(sal.intersection(rest[i][1])), -i))
-        b, bl = rest.pop(best)
-        later = set(out)
-        for _, l in rest:
-            later.update(l)
-        allab = list(dict.fromkeys(al + bl))
+    size = {}
+    for a, l in ts:
+        for x, d in zip(l, a.shape):
+            size[x] = int(d)
+    live = dict(enumerate(ts))
+    nxt = len(ts)
+
+    def count():
+        c = {}
+        for _, l in live.values():
+            for x in set(l):
+                c[x] = c.get(x, 0) + 1
+        for x in out:
+            c[x] = c.get(x, 0) + 1
+        return c
+
+    cnt = count()
+    while len(live) > 1:
+        where = {}
+        for k, (_, l) in live.items():
+            for x in l:
+                where.setdefault(x, []).append(k)
+        best = None
+        seen = set()
+        for x, ks in where.items():
+            for i in range(len(ks)):
+                for j in range(i + 1, len(ks)):
+                    pr = (ks[i], ks[j])
+                    if pr in seen or ks[i] == ks[j]:
+                        continue
+                    seen.add(pr)
+                    la, lb = live[pr[0]][1], live[pr[1]][1]
+                    sa, sb = set(la), set(lb)
+                    keep = [y for y in dict.fromkeys(la + lb) if cnt[y] > (y in sa) + (y in sb)]
+                    sz = 1
+                    for y in keep:
+                        sz *= size[y]
+                    # opt_einsum's greedy score: memory freed by the step
+                    sz -= live[pr[0]][0].size + live[pr[1]][0].size
+                    if best is None or (sz, pr) < best[:2]:
+                        best = (sz, pr, keep)
+        if best is None:
+            ks = sorted(live)[:2]
+            la, lb = live[ks[0]][1], live[ks[1]][1]
+            best = (0, (ks[0], ks[1]), list(dict.fromkeys(la + lb)))
+        _, (ka, kb), keep = best
+        a, la = live.pop(ka)
+        b, lb = live.pop(kb)
+        allab = list(dict.fromkeys(la + lb))
         sym = {x: i for i, x in enumerate(allab)}
-        keep = [x for x in allab if x in later]
-        acc = np.einsum(acc, [sym[x] for x in al], b, [sym[x] for x in bl], [sym[x] for x in keep])
-        al = tuple(keep)
+        res = np.einsum(a, [sym[x] for x in la], b, [sym[x] for x in lb], [sym[x] for x in keep])
+        for x in set(la):
+            cnt[x] -= 1
+        for x in set(lb):
+            cnt[x] -= 1
+        for x in keep:
+            cnt[x] += 1
+        live[nxt] = (res, tuple(keep))
+        nxt += 1
+    ((acc, al),) = live.values()
     sym = {x: i for i, x in enumerate(al)}
     for x in out:
         if x not in sym:
@@ -206,16 +265,42 @@ def n_site_tags(t):
     return sum(1 for g in t.tags if _SITE_RE.match(g))
 
 
-def merged_bond_max(tn):
+def _coords(t):
+    return [tuple(int(x) for x in g[1:].split(",")) for g in t.tags if _SITE_RE.match(g)]
+
+
+def merged_bond_max(tn, per_index=False):
     """largest bond between two boundary tensors (tensors that absorbed more
-    than one site), and how many such tensors there are."""
+    than one site), and how many such tensors there are.  Pairs that are only
+    neighbours through a periodic (wrap-around) bond are skipped: 'mps' /
+    'full-bond' never compress the wrap bond of a boundary line, so it is not
+    a bond the scheme has compressed."""
     qtn = _qtn()
-    ts = [t for t in tn if n_site_tags(t) > 1]
+    ts = [(t, _coords(t)) for t in tn if n_site_tags(t) > 1]
     mb = 0
+    for (a, ca), (b, cb) in itertools.combinations(ts, 2):
+        if a.bonds(b):
+            if not any(sum(abs(x - y) for x, y in zip(p, q)) == 1 for p in ca for q in cb):
+                continue
+            if per_index:
+                # periodic lattice: two boundary tensors can be neighbours
+                # twice (directly and around), each bond compressed on its own
+                mb = max([mb] + [int(tn.ind_size(ix)) for ix in a.bonds(b)])
+            else:
+                mb = max(mb, int(qtn.bonds_size(a, b)))
+    return mb, len(ts)
+
+
+def total_bond_max(tn):
+    """largest TOTAL bond (product over all shared indices) between any two
+    tensors: an uncompressed double bond must not hide behind max_bond()."""
+    qtn = _qtn()
+    mb = 0
+    ts = list(tn)
     for a, b in itertools.combinations(ts, 2):
         if a.bonds(b):
             mb = max(mb, int(qtn.bonds_size(a, b)))
-    return mb, len(ts)
+    return mb
 
 
 def pair_bond(tn, tag_a, tag_b):
@@ -371,8 +456,13 @@ def gram_mode(mode):
     return not (mode in ("mps", "peps", "direct", "local-early", "local-late") or mode.startswith(("zipup", "sdc", "src")))
 
 
-def tol_for(mode):
-    return RTOL_GRAM if gram_mode(mode) else RTOL
+def tol_for(mode, closed=False):
+    """``closed``: the scheme compressed a boundary WITHOUT dangling indices
+    (a sweep that reaches the last line): its environment / Gram matrices are
+    (numerically) rank one, the Gram based schemes lose digits there."""
+    if gram_mode(mode):
+        return RTOL_CLOSED if closed else RTOL_GRAM
+    return RTOL
 
 
 def seed_kw(mode):
@@ -446,14 +536,32 @@ def native_mode(mode):
     return mode in ("mps", "full-bond", "projector2d", "peps", "projector3d", "l2bp3d")
 
 
-def root_for_steps(mode, steps, full):
+def last_site_closed(L, cyc, ax, sw, ot):
+    """geometry only: after sweeping the lines ``sw`` of axis ``ax`` into one
+    boundary line restricted to ``ot`` on the other axis, does the LAST site
+    of that line have no bond left to anything outside the swept block?"""
+    o_end = ot[1]
+    for i in range(sw[0], sw[1] + 1):
+        for a, pos, rng in ((ax, i, sw), (1 - ax, o_end, ot)):
+            for d in (-1, 1):
+                j = pos + d
+                if not 0 <= j < L[a]:
+                    if not (cyc[a] and L[a] > 1):
+                        continue
+                    j %= L[a]
+                if not rng[0] <= j <= rng[1]:
+                    return False
+    return True
+
+
+def root_for_steps(mode, steps, full, dm_closed=None):
     """first known-finding trigger along the steps (from the case only)."""
-    for d, sep, others in steps:
+    for n, (d, sep, others) in enumerate(steps):
         if min(others) == 1 and len(others) == 1 and not native_mode(mode):
             return "via1d-single-site"
+        if mode == "dm" and (dm_closed if dm_closed is not None else full) and (sep == 1 if dm_closed is None else n == len(steps) - 1):
+            return "dm-site-without-open-index"
         if full and sep == 1:
-            if mode == "dm":
-                return "dm-closed-boundary"
             if mode in ("l2bp", "l2bp3d") and sum(o > 1 for o in others) >= 1:
                 return "l2bp-closed-network"
     return None
@@ -524,12 +632,20 @@ def cell_b2d(cell):
     kw.update(okw)
     steps = sim_steps((Lx, Ly), cyc_flags(cyc, 2), seq, kw.get("max_separation", 1), kw.get("max_unfinished", 1), lo, hi)
     root = root_for_steps(mode, steps, full=(lo is None))
+    if mode == "full-bond" and any(steps[i][0] == steps[k][0] and steps[j][0][0] != steps[i][0][0] for i in range(len(steps)) for j in range(i + 1, len(steps)) for k in range(j + 1, len(steps))):
+        # a direction is resumed after a sweep along the other axis: the
+        # lazily cached opposite environments of the first axis are stale
+        root = "full-bond-stale-opposite-envs"
+    cf = cyc_flags(cyc, 2)
+    if mode == "full-bond" and any(cf[1 - "xy".index(st[0][0])] for st in steps):
+        # (takes precedence: it strikes at the first truncation)
+        root = "full-bond-periodic-line"
     nontrivial = len(steps) > 0
     for chi in chis:
         sub = "chi=%s" % chi
         k2 = dict(kw)
         if chi == "E":
-            k2["max_bond"] = cap2d(kind, Lx, Ly, cyc)
+            k2["max_bond"] = cap2d(kind, Lx, Ly, cyc, lines=max([1] + [max(Lx, Ly) + 1 - st[1] for st in steps]))
         else:
             k2["max_bond"] = int(chi)
             k2["final_contract"] = False
@@ -551,13 +667,14 @@ def cell_b2d(cell):
                 out.bad(sub, "contract_boundary result of type %s cannot be denoted (%s: %s)" % (type(res).__name__, _exc_name(ex), str(ex)[:120]), entry="tn2d.contract_boundary", check="type", mode=mode, root=root)
                 continue
             out.maxerr = max(out.maxerr, e if np.isfinite(e) else 0.0)
-            if not e <= tol_for(mode):
+            closed = lo is None and any(st[1] == 1 for st in steps)
+            if not e <= tol_for(mode, closed):
                 out.bad(sub, "untruncated contract_boundary(mode=%r, sequence=%r, %s) on %s %dx%d cyc=%s: value off by %.3e (relative)" % (mode, seq, okw, kind, Lx, Ly, cyc, e), entry="tn2d.contract_boundary", check="value", mode=mode, root=root)
             else:
                 out.ok(sub, nontrivial=nontrivial, outcome="b2d:value:steps=%d" % len(steps))
         else:
-            mb, nm = merged_bond_max(res)
-            if mb > int(chi):
+            mb, nm = merged_bond_max(res, per_index=bool(cyc))
+            if mb > max(int(chi), layer_bond(kind) ** (2 if cyc else 1)):
                 out.bad(sub, "contract_boundary(mode=%r, sequence=%r, max_bond=%s, %s, final_contract=False) on %s %dx%d cyc=%s hands over a boundary bond of size %d" % (mode, seq, chi, okw, kind, Lx, Ly, cyc, mb), entry="tn2d.contract_boundary", check="cap", mode=mode, root=root)
             else:
                 out.ok(sub, nontrivial=nm > 0, outcome="b2d:cap:%s" % ("bond=chi" if mb == int(chi) else "bond<chi" if nm else "no-boundary"))
@@ -593,7 +710,9 @@ def cell_from2d(cell):
     ot = (xr_eff, yr_eff)[1 - ax]
     full = sw == (0, L[ax] - 1) and ot == (0, L[1 - ax] - 1)
     steps = [(fw, s, (ot[1] - ot[0] + 1,)) for s in range(sw[1] - sw[0], 0, -1)]
-    root = root_for_steps(mode, steps, full)
+    root = root_for_steps(mode, steps, full, dm_closed=last_site_closed(L, cyc_flags(cyc, 2), ax, sw, ot))
+    if mode == "full-bond" and root is None and cyc_flags(cyc, 2)[1 - ax]:
+        root = "full-bond-periodic-line"
     entry = "tn2d.contract_boundary_from" + ("" if how == "gen" else "_" + fw)
     kw = dict(mode=mode, cutoff=0.0, layer_tags=lts)
     kw.update(seed_kw(mode))
@@ -602,7 +721,7 @@ def cell_from2d(cell):
         kw.pop("layer_tags")
     for chi in chis:
         sub = "chi=%s" % chi
-        k2 = dict(kw, max_bond=cap2d(kind, Lx, Ly, cyc) if chi == "E" else int(chi))
+        k2 = dict(kw, max_bond=cap2d(kind, Lx, Ly, cyc, lines=sw[1] - sw[0] + 1) if chi == "E" else int(chi))
         tn = tn0.copy()
         try:
             if how == "gen":
@@ -625,10 +744,23 @@ def cell_from2d(cell):
         if how == "wrap_" and res is not tn:
             out.bad(sub, "%s_ (in place) returned a different object" % entry, entry=entry, check="type", mode=mode, root=root)
             continue
+        line = sw[1] if fw.endswith("min") else sw[0]
+        if not okw.get("lazy"):
+            # the swept lines must have been absorbed into ONE boundary tensor
+            # per site of the last line
+            miss = None
+            for j in range(ot[0], ot[1] + 1):
+                want = {res.site_tag(*((i, j) if ax == 0 else (j, i))) for i in range(sw[0], sw[1] + 1)}
+                got = res.select_tensors(res.site_tag(*((line, j) if ax == 0 else (j, line))))
+                if len(got) != 1 or not want <= set(got[0].tags):
+                    miss = j
+            if miss is not None:
+                out.bad(sub, "%s(xrange=%r, yrange=%r, mode=%r, %s) on %s %dx%d cyc=%s: the lines %r have not been absorbed into a single boundary tensor at position %d of line %d" % (entry, xr, yr, mode, okw, kind, Lx, Ly, cyc, sw, miss, line), entry=entry, check="structure", mode=mode, root=root)
+                continue
         if chi == "E":
             e = rf.err(net_value(res))
             out.maxerr = max(out.maxerr, e if np.isfinite(e) else 0.0)
-            if not e <= tol_for(mode):
+            if not e <= tol_for(mode, full):
                 out.bad(sub, "untruncated %s(xrange=%r, yrange=%r, mode=%r, %s) on %s %dx%d cyc=%s: the handed-over network contracts to a value off by %.3e" % (entry, xr, yr, mode, okw, kind, Lx, Ly, cyc, e), entry=entry, check="value", mode=mode, root=root)
             else:
                 out.ok(sub, outcome="from2d:value")
@@ -636,7 +768,6 @@ def cell_from2d(cell):
             if okw.get("lazy"):
                 out.ok(sub, nontrivial=False, outcome="from2d:cap:lazy-skipped")
                 continue
-            line = sw[1] if fw.endswith("min") else sw[0]
             mb, npairs = 0, 0
             for j in range(ot[0], ot[1]):
                 ca = (line, j) if ax == 0 else (j, line)
@@ -699,7 +830,7 @@ def cell_ar2d(cell):
                 out.ok(sub, nontrivial=res.num_tensors < tn0.num_tensors, outcome="ar2d:value")
         else:
             mb, nm = merged_bond_max(res)
-            if mb > int(chi):
+            if mb > max(int(chi), layer_bond(kind)):
                 out.bad(sub, "%s(around=%r, mode=%r, max_bond=%s) on %s %dx%d hands over a boundary bond of size %d" % (ename, around, mode, chi, kind, Lx, Ly, mb), entry=ename, check="cap", mode=mode)
             else:
                 out.ok(sub, nontrivial=nm > 0, outcome="ar2d:cap")
@@ -716,18 +847,52 @@ OPTENV = {
     "nocanon": dict(canonize=False),
     "eq1": dict(equalize_norms=1.0),
     "eqT": dict(equalize_norms=True),
+    "dense+eq1": dict(dense=True, equalize_norms=1.0),
 }
 
 
-def env_check(E, tn0, rf, sites, site_tag):
-    """(status, err): combine the stored environment with every site of the
-    lattice that none of its tensors has absorbed; the result must be closed
-    and contract to the value of the whole.  Environments accumulate only NEW
-    exponent (documented), so the exponent of the original is added once."""
+def expected_absorbed(entry, key, args, Lx, Ly):
+    """the set of sites an environment stored under ``key`` stands for (by
+    the documented meaning of the key, not by what the object contains)."""
+    sites = [(i, j) for i in range(Lx) for j in range(Ly)]
+    if entry in ("x", "y"):
+        ax = "xy".index(entry)
+        which, i = key
+        if which.endswith("min"):
+            return {s for s in sites if s[ax] < i}
+        return {s for s in sites if s[ax] > i}
+    if entry == "one":
+        fw, xr, yr = args
+        ax = "xy".index(fw[0])
+        rr = [tuple(xr) if xr is not None else (0, Lx - 1), tuple(yr) if yr is not None else (0, Ly - 1)]
+        sweep = list(range(rr[ax][0], rr[ax][1] + 1))
+        if fw.endswith("max"):
+            sweep.reverse()
+        pos = sweep.index(key[1])
+        if pos == 0:
+            return set()
+        done = set(sweep[:pos])
+        ot = rr[1 - ax]
+        # the boundary is selected by the tag of the first line: it holds the
+        # absorbed lines inside the other range and the first line outside it
+        return {s for s in sites if (s[ax] in done and ot[0] <= s[1 - ax] <= ot[1]) or s[ax] == sweep[0]}
+    (i0, j0), (bx, by) = key
+    return {s for s in sites if not (i0 <= s[0] < i0 + bx and j0 <= s[1] < j0 + by)}
+
+
+def env_check(E, tn0, rf, sites, site_tag, expected):
+    """(status, info): the stored environment must have absorbed exactly the
+    sites its key stands for; combined with every other site of the lattice it
+    must be closed and contract to the value of the whole.  Environments
+    accumulate only NEW exponent (documented), so the exponent of the original
+    is added once."""
     etags = set()
     for t in E:
         etags.update(t.tags)
-    rest = [site_tag(*s) for s in sites if site_tag(*s) not in etags]
+    absorbed = {s for s in sites if site_tag(*s) in etags}
+    if absorbed != expected:
+        return "keys", sorted(absorbed ^ expected)
+    rest = [site_tag(*s) for s in sites if s not in expected]
     ts, ex = denote(E)
     if rest:
         ts2, _ = denote(tn0.select_any(rest))
@@ -747,7 +912,7 @@ def cell_env2d(cell):
     L = (Lx, Ly)
     sites = [(i, j) for i in range(Lx) for j in range(Ly)]
     okw = dict(OPTENV[opt])
-    kw = dict(max_bond=cap2d(kind, Lx, Ly, cyc), cutoff=0.0, mode=mode, layer_tags=lts)
+    kw = dict(max_bond=cap2d(kind, Lx, Ly, cyc, lines=max(Lx, Ly) - 1), cutoff=0.0, mode=mode, layer_tags=lts)
     kw.update(seed_kw(mode))
     kw.update(okw)
     dense = bool(okw.get("dense"))
@@ -779,15 +944,25 @@ def cell_env2d(cell):
         ax = "xy".index(fcr)
         nl, other = L[ax], L[1 - ax]
         sdr = ((bx, by)[ax] < 2) if sd is None else sd
-        if okw.get("equalize_norms"):
-            root = "plaquette-env-exponent"
+        trig = []
         if mode == "projector2d" and (nl >= 3 or (not sdr and other >= 3)):
-            root = "env-view-aliased"
+            trig.append("env-view-aliased")
+        if okw.get("equalize_norms"):
+            trig.append("plaquette-env-exponent")
+            if sdr:
+                trig.append("env-dense-equalize")
+        root = "+".join(trig) or None
     if entry != "plq":
         if nl < 2:
             root = "env-single-line"
         elif mode == "projector2d" and not dense and nl >= 3:
             root = "env-view-aliased"
+        elif mode == "full-bond" and not dense and nl >= 3 and entry == "one" and other < L[1 - ax]:
+            # canonize_around_ of the whole row moves gauge between the
+            # boundary and the first-line tensors outside the other range
+            root = "env-view-aliased-full-bond"
+        elif dense and okw.get("equalize_norms") and nl >= 3:
+            root = "env-dense-equalize"
         elif other == 1 and not native_mode(mode) and not dense and nl >= 3:
             root = "via1d-single-site"
     elif root is None and not native_mode(mode) and (other == 1 or min(L) == 1):
@@ -811,7 +986,10 @@ def cell_env2d(cell):
         if not isinstance(E, qtn.TensorNetwork):
             out.bad(sub, "%s stored a %s under %r" % (ename, type(E).__name__, key), entry=ename, check="type", mode=mode, root=root)
             continue
-        st, e = env_check(E, tn0, rf, sites, tn0.site_tag)
+        st, e = env_check(E, tn0, rf, sites, tn0.site_tag, expected_absorbed(entry, key, args, Lx, Ly))
+        if st == "keys":
+            out.bad(sub, "%s(mode=%r, %s%s) on %s %dx%d cyc=%s: the environment stored under %r has not absorbed exactly the sites that key stands for (symmetric difference %r)" % (ename, mode, okw, (", args=%r" % (args,)) if args else "", kind, Lx, Ly, cyc, key, e), entry=ename, check="keys", mode=mode, root=root)
+            continue
         if st == "open":
             out.bad(sub, "%s(mode=%r, %s%s) on %s %dx%d cyc=%s: environment %r combined with the sites it excludes has %d dangling indices (cannot contract to the value of the whole)" % (ename, mode, okw, (", args=%r" % (args,)) if args else "", kind, Lx, Ly, cyc, key, e), entry=ename, check="open", mode=mode, root=root)
             continue
@@ -870,6 +1048,8 @@ OPTRG = {
 def _rg_opt(opt):
     if opt.startswith("mode:"):
         return dict(mode=opt[5:])
+    if opt.startswith("dir:"):
+        return dict(direction=None if opt[4:] == "None" else opt[4:])
     return dict(OPTRG[opt])
 
 
@@ -888,7 +1068,7 @@ def cell_rg(cell):
     okw = _rg_opt(opt)
     ename = "tn%dd.%s" % (nd, entry.split(":")[0])
     root = None
-    mode = okw.get("mode", "projector" if entry == "contract_ctmrg" else "hotrg")
+    mode = okw.get("mode", "projector" if entry == "contract_ctmrg" else "mps" if entry == "contract_mps_sweep" else "hotrg")
     if entry == "contract_ctmrg" and "mode" in okw and okw["mode"] != "projector":
         root = "ctmrg-mode-kwargs"
     for chi in chis:
@@ -932,14 +1112,18 @@ def cell_rg(cell):
             if lazy or not isinstance(res, qtn.TensorNetwork):
                 out.ok(sub, nontrivial=False, outcome="rg:cap:skipped")
                 continue
-            if entry == "contract_ctmrg":
-                mb, nm = merged_bond_max(res)
-                lim = int(chi)
+            if entry in ("contract_ctmrg", "contract_mps_sweep"):
+                # bonds ACROSS two boundaries that have met are original
+                # lattice bonds (twice on a periodic lattice): never compressed
+                mb, nm = merged_bond_max(res, per_index=bool(cyc))
+                lim = max(int(chi), D ** (2 if cyc else 1))
             else:
                 # HOTRG compresses the bonds ACROSS the paired direction; the
                 # bonds along it keep their original size D
-                mb, nm = int(res.max_bond()), res.num_tensors
-                lim = max(int(chi), D)
+                # (on periodic lattices two sites can be neighbours twice, so
+                # there only single indices are bounded)
+                mb, nm = (int(res.max_bond()) if cyc else total_bond_max(res)), res.num_tensors
+                lim = max(int(chi), D ** (2 if cyc else 1))
             if mb > lim:
                 out.bad(sub, "%s(max_bond=%s, %s) on %s %r cyc=%s hands over a bond of size %d" % (ename, chi, okw, kind, L, cyc, mb), entry=ename, check="cap", mode=mode, root=root)
             else:
@@ -1000,7 +1184,7 @@ def cell_b3d(cell):
                 out.bad(sub, "tn3d.contract_boundary result of type %s cannot be denoted (%s)" % (type(res).__name__, _exc_name(ex)), entry="tn3d.contract_boundary", check="type", mode=mode, root=root)
                 continue
             out.maxerr = max(out.maxerr, e if np.isfinite(e) else 0.0)
-            if not e <= tol_for(mode):
+            if not e <= tol_for(mode, any(st[1] == 1 for st in steps)):
                 out.bad(sub, "untruncated tn3d.contract_boundary(mode=%r, sequence=%r, %s) on %r cyc=%s: value off by %.3e" % (mode, seq, okw, shape, cyc, e), entry="tn3d.contract_boundary", check="value", mode=mode, root=root)
             else:
                 out.ok(sub, nontrivial=len(steps) > 0, outcome="b3d:value:steps=%d" % len(steps))
@@ -1051,10 +1235,16 @@ def cell_from3d(cell):
         if not isinstance(res, qtn.TensorNetwork):
             out.bad(sub, "%s(..., inplace=False) returned %s instead of the partially contracted network (the 2D method returns the network)" % (entry, type(res).__name__), entry=entry, check="type", mode=mode, root=root)
             continue
+        if not okw.get("lazy"):
+            want_n = int(np.prod(Ls)) - nsteps * int(np.prod(others))
+            nmerged = sum(1 for t in res if n_site_tags(t) == nsteps + 1)
+            if res.num_tensors != want_n or nmerged != int(np.prod(others)):
+                out.bad(sub, "%s(%r, %r, mode=%r, %s) on %r: expected %d tensors with %d boundary tensors that absorbed %d planes, got %d / %d" % (entry, ranges, fw, mode, okw, shape, want_n, int(np.prod(others)), nsteps + 1, res.num_tensors, nmerged), entry=entry, check="structure", mode=mode, root=root)
+                continue
         if chi == "E":
             e = rf.err(net_value(res))
             out.maxerr = max(out.maxerr, e if np.isfinite(e) else 0.0)
-            if not e <= tol_for(mode):
+            if not e <= tol_for(mode, rng == "all"):
                 out.bad(sub, "untruncated %s(%r, %r, mode=%r, %s) on %r: handed-over network contracts to a value off by %.3e" % (entry, ranges, fw, mode, okw, shape, e), entry=entry, check="value", mode=mode, root=root)
             else:
                 out.ok(sub, nontrivial=nsteps > 0, outcome="from3d:value")
@@ -1295,7 +1485,7 @@ def cell_call(cell):
         res = _ag_eval(out, sub, entry, lambda: getattr(tn0.copy(), entry)(**kw), rf, c, None, RTOL_GRAM if entry == "compress_all_simple" else RTOL, desc, value=exact)
         if res is None:
             continue
-        mb = int(res.max_bond())
+        mb = total_bond_max(res)
         if mb > min(c, D):
             out.bad(sub, "%s %s: a bond of size %d is left" % (entry, desc, mb), entry=entry, check="cap")
         else:
@@ -1371,11 +1561,61 @@ def cell_tnag(cell):
             if res.num_tensors != n:
                 out.bad(sub, "tensor_network_ag_compress %s returned %d tensors for %d sites" % (desc, res.num_tensors, n), entry="tensor_network_ag_compress", check="keys", mode=method, root=root)
                 continue
-            mb = int(res.max_bond())
+            mb = total_bond_max(res)
             if mb > min(c, Dex):
                 out.bad(sub, "tensor_network_ag_compress %s leaves a bond of size %d" % (desc, mb), entry="tensor_network_ag_compress", check="cap", mode=method, root=root)
                 continue
         out.ok(sub, nontrivial=True, outcome="tnag:%s:%s" % (method, "value" if exact else "cap"))
+    return out
+
+
+# --------------------------------------------------------------------------- #
+#                 compress_between and its local gauge choices                #
+# --------------------------------------------------------------------------- #
+
+OPTCB = {
+    "-": {},
+    "left": dict(absorb="left"),
+    "right": dict(absorb="right"),
+    "cd1": dict(canonize_distance=1),
+    "cd2": dict(canonize_distance=2),
+    "cd1+cad1": dict(canonize_distance=1, canonize_after_distance=1),
+    "cd1+left": dict(canonize_distance=1, absorb="left"),
+    "vtree": dict(mode="virtual-tree", canonize_distance=1),
+    "vtree2": dict(mode="virtual-tree", canonize_distance=2),
+    "fullbond": dict(mode="full-bond"),
+    "fullbond+right": dict(mode="full-bond", absorb="right"),
+    "eq1": dict(equalize_norms=1.0),
+    "reduced": dict(reduced=True),
+}
+
+
+def cell_cb(cell):
+    """``compress_between`` on one edge of a graph: untruncated -> the network
+    still denotes the same tensor; truncating -> that bond is within the cap
+    and no other bond changed size."""
+    _, edges, phys, edge, opt, chis = cell
+    out = Out(cell)
+    D = 3
+    tn0, rf = buildag(edges, phys, D)
+    okw = dict(OPTCB[opt])
+    a, b = edge
+    for chi in chis:
+        sub = "chi=%s" % chi
+        c = BIG if chi == "E" else int(chi)
+        kw = dict(max_bond=c, cutoff=0.0)
+        kw.update(okw)
+        tn = tn0.copy()
+        desc = "('I%d', 'I%d', max_bond=%s, %s) on graph %r phys=%s (bonds of size %d)" % (a, b, chi, okw, edges, phys, D)
+        res = _ag_eval(out, sub, "compress_between", lambda: (tn.compress_between("I%d" % a, "I%d" % b, **kw), tn)[1], rf, c, None, RTOL_GRAM if "fullbond" in opt else RTOL, desc, mode=okw.get("mode"), value=(c >= D))
+        if res is None:
+            continue
+        got = pair_bond(res, "I%d" % a, "I%d" % b)
+        others = max([0] + [pair_bond(res, "I%d" % x, "I%d" % y) or 0 for x, y in edges if (x, y) != (a, b)])
+        if got is None or got > min(c, D) or others > D:
+            out.bad(sub, "compress_between %s: compressed bond has size %r, largest other bond %d" % (desc, got, others), entry="compress_between", check="cap", mode=okw.get("mode"))
+        else:
+            out.ok(sub, outcome="cb:%s" % ("value" if c >= D else "cap"))
     return out
 
 
@@ -1395,6 +1635,7 @@ TABLES = {
     "cell3d": cell_cell3d,
     "cc": cell_cc,
     "ar": cell_ar,
+    "cb": cell_cb,
     "call": cell_call,
     "tnag": cell_tnag,
 }
@@ -1511,7 +1752,7 @@ def cells_from2d(tier):
     lat = [("flat", 3, 3, 0)] if q else [("flat", 4, 4, 0), ("flat", 3, 4, 0), ("flat3", 3, 3, 0), ("flat", 3, 3, 2), ("flat", 4, 3, 1)]
     for kind, Lx, Ly, cyc in lat:
         for mode in M:
-            ch = ("E", 2) if (slow_mode(mode) or q) else ("E", 2, 3)
+            ch = ("E",) if (slow_mode(mode) and q) else ("E", 2) if (slow_mode(mode) or q) else ("E", 2, 3)
             for fw in DIRS2:
                 for xr in _ranges(Lx):
                     for yr in _ranges(Ly):
@@ -1576,6 +1817,8 @@ def cells_env2d(tier):
             opts = ["-", "dense", "nocanon", "eq1"] + ([] if q else ["eqT"])
             if q and slow_mode(mode):
                 opts = ["-"]
+            if mode == "mps" or (not q and mode in ("zipup", "projector2d")):
+                opts.append("dense+eq1")  # the dense branch does not depend on the mode
             for opt in opts:
                 for entry in ("x", "y"):
                     cells.append(("env2d", kind, Lx, Ly, cyc, mode, entry, None, opt))
@@ -1624,11 +1867,13 @@ def cells_rg(tier):
         for d in "xy":
             for opt in ("-", "canon", "lazy", "eq1", "inplace"):
                 cells.append(("rg", 2, kind, L, cyc, "cg:" + d, opt, ("E", 2, 3)))
+        for opt in ("dir:None", "dir:xmin", "dir:xmax", "dir:ymin", "dir:ymax"):
+            cells.append(("rg", 2, kind, L, cyc, "contract_mps_sweep", opt, ("E", 2, 3)))
     # ctmrg's mode argument: every other boundary mode
     for mode in (("mps", "projector2d", "zipup") if q else [m for m in modes2d() if m != "projector"]):
         cells.append(("rg", 2, "flat", (4, 4), 0, "contract_ctmrg", "mode:" + mode, ("E",)))
     # 3D
-    lat3 = [((2, 2, 3), 0), ((3, 3, 2), 0)] if q else [((2, 2, 2), 0), ((2, 2, 3), 0), ((3, 2, 2), 0), ((2, 3, 2), 0), ((3, 3, 2), 0), ((3, 3, 3), 0), ((4, 2, 2), 0), ((2, 2, 3), 4), ((3, 3, 3), 7)]
+    lat3 = [((2, 2, 3), 0), ((3, 3, 2), 0)] if q else [((2, 2, 2), 0), ((2, 2, 3), 0), ((3, 2, 2), 0), ((2, 3, 2), 0), ((3, 3, 2), 0), ((3, 3, 3), 0), ((4, 2, 2), 0), ((2, 2, 3), 4), ((3, 3, 2), 7), ((3, 3, 3), 1)]
     hot3 = ["-", "canon", "lazy", "strip", "eq1", "nofinal", "inplace", "sep0", "seq:zyx", "seq:z"]
     ctm3 = ["-", "canon", "lazy", "strip", "eq1", "nofinal", "inplace", "sep0", "seq:zrev"]
     for L, cyc in lat3:
@@ -1670,7 +1915,7 @@ def cells_3d(tier):
                 for seq in ((None,) if q else (None, "zmin", ("xmin", "xmax"))):
                     cells.append(("b3d", shape, 0, mode, seq, opt, ("E", 2) if (opt in ("nocanon", "sep0", "early", "nointer") and not slow_mode(mode) and not big) else ("E",)))
     # cyclic
-    for shape, cyc in ([((3, 2, 2), 1)] if q else [((3, 2, 2), 1), ((2, 3, 2), 2), ((2, 2, 3), 4), ((3, 3, 3), 7)]):
+    for shape, cyc in ([((3, 2, 2), 1)] if q else [((3, 2, 2), 1), ((2, 3, 2), 2), ((2, 2, 3), 4), ((3, 3, 2), 7), ((3, 3, 3), 1)]):
         for mode in M:
             for seq in (None, "xmin", "zmax"):
                 cells.append(("b3d", shape, cyc, mode, seq, "-", ("E",)))
@@ -1776,6 +2021,18 @@ def cells_ag(tier):
     return cells
 
 
+def cells_cb(tier):
+    q = tier == "quick"
+    cells = []
+    G = graphs(4) + ([] if q else [g for g in graphs(5) if nnodes(g) == 5])
+    for phys in (None, 2):
+        for g in G:
+            for edge in g:
+                for opt in OPTCB:
+                    cells.append(("cb", g, phys, edge, opt, ("E", 3, 2)))
+    return cells
+
+
 CELLFNS = {
     "b2d": cells_b2d,
     "from2d": cells_from2d,
@@ -1784,6 +2041,7 @@ CELLFNS = {
     "rg": cells_rg,
     "3d": cells_3d,
     "ag": cells_ag,
+    "cb": cells_cb,
 }
 
 
@@ -1808,14 +2066,14 @@ def run(ctx):
     ctx.bounds = {
         "2D": "flat D=2 up to 5x5 (quick 4x4), D=3 up to 4x4, double-layer PEPS norm up to 4x3 (with and without layer_tags, both orders), network with exponent, cyclic x / y / both, one-line lattices",
         "2D_modes": list(modes2d()),
-        "3D": "TN3D D=2 up to 3x3x3 (quick 2x2x3 / 3x2x2), cyclic per axis and all",
+        "3D": "TN3D D=2 up to 3x3x3 (quick 2x2x3 / 3x2x2), cyclic per axis (up to 3x3x3) and in all three (3x3x2; the numpy reference cannot contract a fully periodic 3x3x3 in reasonable time)",
         "3D_modes": list(modes3d()),
         "graphs": "every connected graph on 2..5 nodes (quick: all on <= 4 nodes + 3 on 5), bonds of size 3, closed and with one dangling index per node; all 3 / 18 / 180 contraction paths",
-        "caps": "exact regime: 2D max_bond=(layer bond)**(L-1) (squared on cyclic lattices; exactly large enough), 3D %d, HOTRG/CTMRG %d, graphs %d; truncating regime chi in {2, 3}; cutoff=0.0 always" % (CAP3D, CAPRG, BIG),
+        "caps": "exact regime: 2D max_bond=(layer bond)**(lines absorbed) (squared on cyclic lattices; exactly large enough), 3D %d, HOTRG/CTMRG %d, graphs %d; truncating regime chi in {2, 3}; cutoff=0.0 always" % (CAP3D, CAPRG, BIG),
         "options": {"contract_boundary": sorted(OPT2D), "contract_compressed": sorted(OPTCC), "3D": sorted(OPT3D), "rg": sorted(OPTRG)},
     }
     ctx.assumptions += [
-        "tolerance: relative 1e-8 for QR/SVD based schemes, 1e-7 for schemes going through Gram matrices / eigh (projector*, dm, full-bond, fit-projector, bp, simple update, HOTRG/CTMRG); the denominator is max(|exact|, 1e-4 * value of the network of absolute values) so cancellation in the exact value cannot cause a false alarm",
+        "tolerance: relative 1e-8 for QR/SVD based schemes, 1e-7 for schemes going through Gram matrices / eigh (projector*, dm, full-bond, fit-projector, bp, simple update, HOTRG/CTMRG), 1e-5 for the latter when they compress a boundary without dangling indices (sweep reaching the last line: rank deficient Gram matrices; largest error seen 6e-7); the denominator is max(|exact|, 1e-4 * value of the network of absolute values) so cancellation in the exact value cannot cause a false alarm",
         "mode-specific options are only given to the mode that documents them (compress_late / compress_opts absorb / canonize_interleave: mps resp. peps; lazy: projector2d / projector3d)",
         "mode='full-bond' with equalize_norms / strip_exponent and 3D mode='peps' on cyclic lattices are documented NotImplementedError rejections",
         "compress_all_tree only on trees, compress_all_1d only on chains (documented domains); contract_simple_sweep is given cutoff=0 through peps_opts/mps_opts",
